@@ -127,9 +127,21 @@ def run(tier, seed, replay):
     se_methods = ["adams", "bdf", "lsoda", "dop853", "vern7", "vern9", "diag", "krylov"]
     me_methods = ["adams", "bdf", "lsoda", "dop853", "vern7", "vern9", "diag"]
     nsys = 3 if tier == "quick" else 12
-    for si in range(nsys):
+    for si in range(nsys + 2):
         d = int(rng.choice([2, 3, 4]))
         H = qutip.rand_herm(d, seed=int(rng.integers(1 << 30)))
+        if si == nsys:
+            # two identical uncoupled qubits: degenerate levels whose eigenvectors a general eigensolver does not return orthonormal
+            d = 4
+            w_, g_ = float(rng.uniform(0.5, 1.5)), float(rng.uniform(0.2, 0.8))
+            one = 0.5 * w_ * qutip.sigmaz() + g_ * qutip.sigmax()
+            H = qutip.Qobj((qutip.tensor(one, qutip.qeye(2)) + qutip.tensor(qutip.qeye(2), one)).full())
+        elif si == nsys + 1:
+            # equally spaced levels with a doubly degenerate one
+            d = 4
+            H = qutip.Qobj(np.diag([0.0, 1.0, 1.0, 2.0]) * float(rng.uniform(0.5, 1.5)))
+            Uo = qutip.rand_unitary(4, seed=int(rng.integers(1 << 30)))
+            H = Uo * H * Uo.dag()
         H1 = qutip.rand_herm(d, seed=int(rng.integers(1 << 30)))
         cs = [np.sqrt(rng.uniform(0.05, 0.5)) * qutip.Qobj(rng.standard_normal((d, d)) + 1j * rng.standard_normal((d, d))) / np.sqrt(d) for _ in range(int(rng.integers(1, 3)))]
         psi0 = qutip.rand_ket(d, seed=int(rng.integers(1 << 30)))
